@@ -9,6 +9,13 @@
      value conversions on top of the wire integer  -> [Codec_adapter]
      construct Array(this.n, ...) / Bytes(this.n) / Bytes(k) / GreedyBytes, `for i in range(num_svs)` -> WCounted / WBytes
 
+   polymorphic containers (SetConfig / ConfigResponse / FaultControl: a tag field selects the layout of a
+   length-prefixed sub-payload) -> WTagged; construct If(tag == v, ...) -> WSwitch; construct PaddedString -> IStr
+   (fixed size, NUL padded) / WBytes .. BStr (length-prefixed); EventNotification's "/2" -> ".1" rewrite -> BRewrite.
+   The decoders take a flag ST ("strict"): with ST = false they are the MODEL of unpack; with ST = true they
+   additionally refuse the inputs that are not in canonical form (declared length longer than the content, NUL-padded
+   length-prefixed string, content not understood) - only used to STATE theorems.
+
    Values: integers; floats are carried as their raw bit patterns (so equality is bit equality, every NaN
    of a 32-bit float after the quieting the float<->double conversion performs); "NaN because the wire
    value is the sentinel" is [FNaN].  The Timestamp adapter is in Models/CodecTs.v. *)
@@ -73,6 +80,7 @@ Definition Codec_aenc (a : Codec_adapter) (v : Codec_fval) : option Z :=
   | ATimestamp, _ => Codec_ts_enc v
   | _, FInt z => Some z
   | _, FNaN => None
+  | _, FBytes _ => None
   end.
 (* the wire values on which the projection law dec (enc (dec z)) = dec z is claimed *)
 Definition Codec_adom (a : Codec_adapter) (z : Z) : bool :=
@@ -83,17 +91,94 @@ Definition Codec_adec_dom (a : Codec_adapter) (z : Z) : option Codec_fval :=
 (* ---- descriptions ---------------------------------------------------------------------------------- *)
 Inductive Codec_item :=
 | IField (id : N) (k : Codec_kind) (a : Codec_adapter)
-| IPad (bs : list Z).          (* skipped by decode, written by encode *)
+| IPad (bs : list Z)           (* skipped by decode, written by encode *)
+| IStr (id : N) (n : nat).     (* construct PaddedString(n, 'utf8'): n bytes, trailing NULs stripped, must be UTF-8 *)
 Inductive Codec_blen := LFixed (n : nat) | LCount (cnt : N) | LGreedy.
+(* what unpack does with a byte string after reading it *)
+Inductive Codec_bmode :=
+| BRaw
+| BStr                                                       (* PaddedString(this.len): strip trailing NULs, must be UTF-8 *)
+| BRewrite (tag : N) (vals : list Z) (src dst : list Z).     (* if field `tag` is in vals and the bytes start with src: replace that prefix by dst *)
+(* a polymorphic, length-prefixed sub-payload *)
+Record Codec_tagspec := {
+  tg_tag : N;                                   (* earlier field selecting the layout *)
+  tg_len : N;                                   (* earlier field holding the declared length (pack writes len(data)) *)
+  tg_skip : option (N * Z);                     (* (flag field, mask): when set the object is not read / written (revert-to-default) *)
+  tg_cases : list (Z * list Codec_item);        (* tag value -> object layout *)
+  tg_sub : option (Z * list Codec_item * N * list (Z * list Codec_item));
+                                                (* (tag value, header layout, sub-tag field of the header, sub-tag value -> object layout) *)
+  tg_opaque : bool                              (* unknown tag / content too short: keep the message, object = None (pack then refuses) *)
+}.
 Inductive Codec_wire :=
 | WItem (i : Codec_item)
 | WCounted (id cnt : N) (body : list Codec_item)     (* `cnt` records of `body` *)
-| WBytes (id : N) (l : Codec_blen).
+| WBytes (id : N) (l : Codec_blen) (m : Codec_bmode)
+| WSwitch (id tag : N) (cases : list (Z * list Codec_item))   (* If(tag == v, Struct): one record when the tag has a case, nothing otherwise *)
+| WTagged (id : N) (s : Codec_tagspec).
 Definition Codec_desc := list Codec_wire.
 
 Definition Codec_rec := list (N * Codec_fval).
-Inductive Codec_value := VF (v : Codec_fval) | VBytes (l : list Z) | VRecs (rs : list Codec_rec).
+Inductive Codec_value :=
+| VF (v : Codec_fval) | VBytes (l : list Z) | VRecs (rs : list Codec_rec)
+| VTag (hdr obj : Codec_rec) (sz : nat)        (* sz = len(data) pack will write: header + object layout sizes *)
+| VOpaque.                                     (* container content not understood *)
 Definition Codec_env := list (N * Codec_value).
+
+(* ---- strings --------------------------------------------------------------------------------------- *)
+Fixpoint Codec_strip (l : list Z) : list Z :=       (* construct NullStripped: drop trailing zero bytes *)
+  match l with
+  | [] => []
+  | x :: r => match Codec_strip r with
+              | [] => if x =? 0 then [] else [x]
+              | r' => x :: r'
+              end
+  end.
+Definition Codec_cont (b : Z) : bool := (128 <=? b) && (b <=? 191).
+(* bytes.decode('utf8') succeeds (strict: no overlong forms, no surrogates, nothing above U+10FFFF) *)
+Fixpoint Codec_utf8_ok (l : list Z) : bool :=
+  match l with
+  | [] => true
+  | b0 :: r =>
+      if (0 <=? b0) && (b0 <? 128) then Codec_utf8_ok r else
+      match r with
+      | [] => false
+      | b1 :: r1 =>
+          if (194 <=? b0) && (b0 <=? 223) then Codec_cont b1 && Codec_utf8_ok r1 else
+          match r1 with
+          | [] => false
+          | b2 :: r2 =>
+              if (b0 =? 224) then (160 <=? b1) && (b1 <=? 191) && Codec_cont b2 && Codec_utf8_ok r2
+              else if ((225 <=? b0) && (b0 <=? 236)) || (b0 =? 238) || (b0 =? 239) then Codec_cont b1 && Codec_cont b2 && Codec_utf8_ok r2
+              else if (b0 =? 237) then (128 <=? b1) && (b1 <=? 159) && Codec_cont b2 && Codec_utf8_ok r2
+              else
+              match r2 with
+              | [] => false
+              | b3 :: r3 =>
+                  if (b0 =? 240) then (144 <=? b1) && (b1 <=? 191) && Codec_cont b2 && Codec_cont b3 && Codec_utf8_ok r3
+                  else if (241 <=? b0) && (b0 <=? 243) then Codec_cont b1 && Codec_cont b2 && Codec_cont b3 && Codec_utf8_ok r3
+                  else if (b0 =? 244) then (128 <=? b1) && (b1 <=? 143) && Codec_cont b2 && Codec_cont b3 && Codec_utf8_ok r3
+                  else false
+              end
+          end
+      end
+  end.
+Definition Codec_str_dec (h : list Z) : option (list Z) :=
+  let s := Codec_strip h in if Codec_utf8_ok s then Some s else None.
+
+Fixpoint Codec_list_eqb (a b : list Z) : bool :=
+  match a, b with
+  | [], [] => true
+  | x :: a', y :: b' => (x =? y) && Codec_list_eqb a' b'
+  | _, _ => false
+  end.
+Definition Codec_starts (p l : list Z) : bool := Codec_list_eqb (firstn (length p) l) p.
+Fixpoint Codec_assoc {A : Type} (t : Z) (cases : list (Z * A)) : option A :=
+  match cases with [] => None | (v, x) :: r => if t =? v then Some x else Codec_assoc t r end.
+Fixpoint Codec_rec_int (r : Codec_rec) (id : N) : option Z :=
+  match r with
+  | [] => None
+  | (i, v) :: r' => if N.eqb i id then match v with FInt z => Some z | _ => None end else Codec_rec_int r' id
+  end.
 
 Definition Codec_take (n : nat) (b : list Z) : option (list Z * list Z) :=
   if (length b <? n)%nat then None else Some (firstn n b, skipn n b).
@@ -106,17 +191,19 @@ Definition Codec_len_of (e : Codec_env) (id : N) : option Z :=
   match Codec_lookup e id with
   | Some (VBytes l) => Some (Z.of_nat (length l))
   | Some (VRecs rs) => Some (Z.of_nat (length rs))
+  | Some (VTag _ _ sz) => Some (Z.of_nat sz)
   | _ => None
   end.
 
 Definition Codec_item_size (i : Codec_item) : nat :=
-  match i with IField _ k _ => Codec_ksize k | IPad bs => length bs end.
+  match i with IField _ k _ => Codec_ksize k | IPad bs => length bs | IStr _ n => n end.
 Definition Codec_items_size (its : list Codec_item) : nat := fold_right (fun i n => (Codec_item_size i + n)%nat) O its.
 
 Section Decode.
-  (* the adapter decode in use: [Codec_adec] (the model of unpack) or [Codec_adec_dom] (same, restricted to
-     the inputs of the projection law; used only to state theorems) *)
+  (* AD: the adapter decode in use: [Codec_adec] (the model of unpack) or a restriction of it;
+     ST: strict - additionally refuse inputs that are not in canonical form (only used to state theorems) *)
   Variable AD : Codec_adapter -> Z -> option Codec_fval.
+  Variable ST : bool.
 
   Fixpoint Codec_dec_items (its : list Codec_item) (b : list Z) : option (Codec_rec * list Z) :=
     match its with
@@ -137,6 +224,18 @@ Section Decode.
         match Codec_take (length bs) b with
         | None => None
         | Some (_, t) => Codec_dec_items r t
+        end
+    | IStr id n :: r =>
+        match Codec_take n b with
+        | None => None
+        | Some (h, t) =>
+            match Codec_str_dec h with
+            | None => None
+            | Some sv => match Codec_dec_items r t with
+                         | None => None
+                         | Some (e, rest) => Some ((id, FBytes sv) :: e, rest)
+                         end
+            end
         end
     end.
 
@@ -160,6 +259,61 @@ Section Decode.
     | Some c => if (c <? 0) || (Z.of_nat (length b) <? c) then None else Some (Z.to_nat c)
     end.
 
+  Definition Codec_bdec (acc : Codec_env) (m : Codec_bmode) (h : list Z) : option (list Z) :=
+    match m with
+    | BRaw => Some h
+    | BStr => match Codec_str_dec h with
+              | None => None
+              | Some sv => if ST && negb (Nat.eqb (length sv) (length h)) then None else Some sv
+              end
+    | BRewrite tag vals src dst =>
+        match Codec_lookup_int acc tag with
+        | None => None
+        | Some t => Some (if existsb (Z.eqb t) vals && Codec_starts src h then dst ++ skipn (length src) h else h)
+        end
+    end.
+
+  Definition Codec_skip_flag (s : Codec_tagspec) (env : Codec_env) : option bool :=
+    match tg_skip s with
+    | None => Some false
+    | Some (fid, m) => match Codec_lookup_int env fid with Some f => Some (negb (Z.land f m =? 0)) | None => None end
+    end.
+
+  (* the region of `declared length` bytes of a tagged sub-payload *)
+  Definition Codec_tag_dec (s : Codec_tagspec) (acc : Codec_env) (R : list Z) : option Codec_value :=
+    match Codec_lookup_int acc (tg_tag s), Codec_skip_flag s acc with
+    | Some t, Some skip =>
+        match (match tg_sub s with
+               | Some (tv, hitems, sid, subcases) =>
+                   if t =? tv then
+                     match Codec_dec_items hitems R with
+                     | None => None
+                     | Some (rh, R1) => match Codec_rec_int rh sid with
+                                        | None => None
+                                        | Some sv => Some (hitems, rh, R1, Codec_assoc sv subcases)
+                                        end
+                     end
+                   else Some ([], [], R, Codec_assoc t (tg_cases s))
+               | None => Some ([], [], R, Codec_assoc t (tg_cases s))
+               end) with
+        | None => None
+        | Some (hitems, rh, R1, sel) =>
+            match sel with
+            | None => if tg_opaque s && negb ST then Some VOpaque else None
+            | Some oitems =>
+                if skip then (if ST && negb (Nat.eqb (length R1) 0) then None else Some (VTag rh [] (Codec_items_size hitems)))
+                else if tg_opaque s && (length R1 <? Codec_items_size oitems)%nat then (if ST then None else Some VOpaque)
+                else match Codec_dec_items oitems R1 with
+                     | None => None
+                     | Some (ro, lft) =>
+                         if ST && negb (Nat.eqb (length lft) 0) then None
+                         else Some (VTag rh ro (Codec_items_size hitems + Codec_items_size oitems))
+                     end
+            end
+        end
+    | _, _ => None
+    end.
+
   Definition Codec_dec_one (w : Codec_wire) (acc : Codec_env) (b : list Z) : option (Codec_env * list Z) :=
     match w with
     | WItem it =>
@@ -175,14 +329,34 @@ Section Decode.
                     | Some (rs, t) => Some ([(id, VRecs rs)], t)
                     end
         end
-    | WBytes id (LFixed n) =>
-        match Codec_take n b with None => None | Some (h, t) => Some ([(id, VBytes h)], t) end
-    | WBytes id (LCount cnt) =>
-        match Codec_count acc cnt b with
+    | WBytes id l m =>
+        match (match l with
+               | LFixed n => Codec_take n b
+               | LCount cnt => match Codec_count acc cnt b with None => None | Some n => Codec_take n b end
+               | LGreedy => Some (b, [])
+               end) with
         | None => None
-        | Some n => match Codec_take n b with None => None | Some (h, t) => Some ([(id, VBytes h)], t) end
+        | Some (h, t) => match Codec_bdec acc m h with None => None | Some v => Some ([(id, VBytes v)], t) end
         end
-    | WBytes id LGreedy => Some ([(id, VBytes b)], [])
+    | WSwitch id tag cases =>
+        match Codec_lookup_int acc tag with
+        | None => None
+        | Some t => match Codec_assoc t cases with
+                    | None => Some ([(id, VRecs [])], b)
+                    | Some its => match Codec_dec_items its b with
+                                  | None => None
+                                  | Some (r, rest) => Some ([(id, VRecs [r])], rest)
+                                  end
+                    end
+        end
+    | WTagged id s =>
+        match Codec_count acc (tg_len s) b with
+        | None => None
+        | Some n => match Codec_take n b with
+                    | None => None
+                    | Some (R, t) => match Codec_tag_dec s acc R with None => None | Some v => Some ([(id, v)], t) end
+                    end
+        end
     end.
 
   Fixpoint Codec_dec_wire (d : Codec_desc) (acc : Codec_env) (b : list Z) : option (Codec_env * list Z) :=
@@ -207,8 +381,9 @@ Section Decode.
     end.
 End Decode.
 
-Definition Codec_parse := Codec_parse_with Codec_adec.
-Definition Codec_parse_dom := Codec_parse_with Codec_adec_dom.
+Definition Codec_parse := Codec_parse_with Codec_adec false.
+(* the same, restricted to inputs in canonical form whose stamps are in the domain of the Timestamp law *)
+Definition Codec_parse_dom := Codec_parse_with Codec_adec_dom true.
 (* unpack(buffer, offset) *)
 Definition Codec_parse_at (d : Codec_desc) (off : nat) (buf : list Z) : option (Codec_env * nat) :=
   if (length buf <? off)%nat then None else Codec_parse d (skipn off buf).
@@ -231,6 +406,14 @@ Fixpoint Codec_enc_items (its : list Codec_item) (r : Codec_rec) : option (list 
           else None
       | [] => None
       end
+  | IStr id n :: its' =>
+      match r with
+      | (id', FBytes sv) :: r' =>
+          if N.eqb id id' && Codec_bytes_ok sv && (length sv <=? n)%nat then
+            match Codec_enc_items its' r' with None => None | Some t => Some (sv ++ repeat 0 (n - length sv) ++ t) end
+          else None
+      | _ => None
+      end
   end.
 
 Fixpoint Codec_enc_recs (its : list Codec_item) (rs : list Codec_rec) : option (list Z) :=
@@ -244,6 +427,31 @@ Fixpoint Codec_enc_recs (its : list Codec_item) (rs : list Codec_rec) : option (
 
 Definition Codec_len_okb (l : Codec_blen) (bs : list Z) : bool :=
   match l with LFixed n => Nat.eqb (length bs) n | _ => true end.
+
+Definition Codec_tag_enc (s : Codec_tagspec) (full : Codec_env) (v : Codec_value) : option (list Z) :=
+  match v with
+  | VTag rh ro sz =>
+      match Codec_lookup_int full (tg_tag s), Codec_skip_flag s full with
+      | Some t, Some skip =>
+          let '(hitems, sel) :=
+            match tg_sub s with
+            | Some (tv, hitems, sid, subcases) =>
+                if t =? tv then (hitems, match Codec_rec_int rh sid with Some sv => Codec_assoc sv subcases | None => None end)
+                else ([], Codec_assoc t (tg_cases s))
+            | None => ([], Codec_assoc t (tg_cases s))
+            end in
+          match sel, Codec_enc_items hitems rh with
+          | Some oitems, Some bh =>
+              match (if skip then (match ro with [] => Some [] | _ => None end) else Codec_enc_items oitems ro) with
+              | Some bo => if Nat.eqb (length (bh ++ bo)) sz then Some (bh ++ bo) else None
+              | None => None
+              end
+          | _, _ => None
+          end
+      | _, _ => None
+      end
+  | _ => None            (* VOpaque: the container refuses to serialise content it did not understand *)
+  end.
 
 Definition Codec_enc_one (w : Codec_wire) (full e : Codec_env) : option (list Z * Codec_env) :=
   match w with
@@ -259,16 +467,43 @@ Definition Codec_enc_one (w : Codec_wire) (full e : Codec_env) : option (list Z 
           else None
       | _ => None
       end
+  | WItem (IStr id n) =>
+      match e with
+      | (id', VF v) :: e' =>
+          match Codec_enc_items [IStr id n] [(id', v)] with None => None | Some b => Some (b, e') end
+      | _ => None
+      end
   | WCounted id cnt body =>
       match e with
       | (id', VRecs rs) :: e' =>
           if N.eqb id id' then match Codec_enc_recs body rs with None => None | Some b => Some (b, e') end else None
       | _ => None
       end
-  | WBytes id l =>
+  | WBytes id l m =>
       match e with
       | (id', VBytes bs) :: e' =>
           if N.eqb id id' && Codec_bytes_ok bs && Codec_len_okb l bs then Some (bs, e') else None
+      | _ => None
+      end
+  | WSwitch id tag cases =>
+      match e with
+      | (id', VRecs rs) :: e' =>
+          if N.eqb id id' then
+            match Codec_lookup_int full tag with
+            | None => None
+            | Some t => match Codec_assoc t cases, rs with
+                        | None, [] => Some ([], e')
+                        | Some its, [r] => match Codec_enc_items its r with None => None | Some b => Some (b, e') end
+                        | _, _ => None
+                        end
+            end
+          else None
+      | _ => None
+      end
+  | WTagged id s =>
+      match e with
+      | (id', v) :: e' =>
+          if N.eqb id id' then match Codec_tag_enc s full v with None => None | Some b => Some (b, e') end else None
       | _ => None
       end
   end.
@@ -287,26 +522,33 @@ Fixpoint Codec_enc_wire (d : Codec_desc) (full e : Codec_env) : option (list Z) 
 Definition Codec_pack (d : Codec_desc) (e : Codec_env) : option (list Z) := Codec_enc_wire d e e.
 
 (* obj.calcsize(): computed from the layout and the lengths of the variable parts, without serialising *)
-Fixpoint Codec_sizeof (d : Codec_desc) (e : Codec_env) : option nat :=
+Definition Codec_size_one (w : Codec_wire) (full e : Codec_env) : option (nat * Codec_env) :=
+  match w with
+  | WItem (IPad bs) => Some (length bs, e)
+  | WItem (IField _ k _) => match e with (_, VF _) :: e' => Some (Codec_ksize k, e') | _ => None end
+  | WItem (IStr _ n) => match e with (_, VF _) :: e' => Some (n, e') | _ => None end
+  | WCounted _ _ body => match e with (_, VRecs rs) :: e' => Some ((length rs * Codec_items_size body)%nat, e') | _ => None end
+  | WBytes _ _ _ => match e with (_, VBytes bs) :: e' => Some (length bs, e') | _ => None end
+  | WSwitch _ tag cases =>
+      match e with
+      | (_, VRecs rs) :: e' =>
+          match Codec_lookup_int full tag with
+          | None => None
+          | Some t => match Codec_assoc t cases with None => Some (O, e') | Some its => Some (Codec_items_size its, e') end
+          end
+      | _ => None
+      end
+  | WTagged _ _ => match e with (_, VTag _ _ sz) :: e' => Some (sz, e') | _ => None end
+  end.
+Fixpoint Codec_sizeof_from (d : Codec_desc) (full e : Codec_env) : option nat :=
   match d with
   | [] => match e with [] => Some O | _ => None end
-  | WItem (IPad bs) :: d' => match Codec_sizeof d' e with None => None | Some n => Some (length bs + n)%nat end
-  | WItem (IField _ k _) :: d' =>
-      match e with
-      | (_, VF _) :: e' => match Codec_sizeof d' e' with None => None | Some n => Some (Codec_ksize k + n)%nat end
-      | _ => None
-      end
-  | WCounted _ _ body :: d' =>
-      match e with
-      | (_, VRecs rs) :: e' => match Codec_sizeof d' e' with None => None | Some n => Some (length rs * Codec_items_size body + n)%nat end
-      | _ => None
-      end
-  | WBytes _ _ :: d' =>
-      match e with
-      | (_, VBytes bs) :: e' => match Codec_sizeof d' e' with None => None | Some n => Some (length bs + n)%nat end
-      | _ => None
-      end
+  | w :: d' => match Codec_size_one w full e with
+               | None => None
+               | Some (n, e') => match Codec_sizeof_from d' full e' with None => None | Some m => Some (n + m)%nat end
+               end
   end.
+Definition Codec_sizeof (d : Codec_desc) (e : Codec_env) : option nat := Codec_sizeof_from d e e.
 
 (* obj.pack(buffer, offset): struct.pack_into / buffer[offset:offset+len] = data on a buffer that is large enough *)
 Definition Codec_pack_into (buf : list Z) (off : nat) (b1 : list Z) : option (list Z) :=
@@ -331,16 +573,20 @@ Definition Codec_wf_item (top : bool) (i : Codec_item) : bool :=
   match i with
   | IField _ k a => Codec_wf_adapter top k a
   | IPad bs => Codec_bytes_ok bs
+  | IStr _ _ => true
   end.
 
 Definition Codec_wire_id (w : Codec_wire) : list N :=
-  match w with WItem (IField id _ _) => [id] | WItem (IPad _) => [] | WCounted id _ _ => [id] | WBytes id _ => [id] end.
+  match w with
+  | WItem (IField id _ _) => [id] | WItem (IPad _) => [] | WItem (IStr id _) => [id]
+  | WCounted id _ _ => [id] | WBytes id _ _ => [id] | WSwitch id _ _ => [id] | WTagged id _ => [id]
+  end.
 Definition Codec_ids (d : Codec_desc) : list N := flat_map Codec_wire_id d.
 
 Fixpoint Codec_nodupb (l : list N) : bool :=
   match l with [] => true | x :: r => negb (existsb (N.eqb x) r) && Codec_nodupb r end.
 
-Definition Codec_is_greedy (w : Codec_wire) : bool := match w with WBytes _ LGreedy => true | _ => false end.
+Definition Codec_is_greedy (w : Codec_wire) : bool := match w with WBytes _ LGreedy _ => true | _ => false end.
 Definition Codec_nogreedy (d : Codec_desc) : bool := forallb (fun w => negb (Codec_is_greedy w)) d.
 
 (* (count field id, target id) announced by the fields seen so far *)
@@ -348,7 +594,8 @@ Definition Codec_counts_of (d : Codec_desc) : list (N * N) :=
   flat_map (fun w => match w with WItem (IField id _ (ACount t)) => [(id, t)] | _ => [] end) d.
 (* (count field id, part id) used by the variable parts *)
 Definition Codec_uses_of (d : Codec_desc) : list (N * N) :=
-  flat_map (fun w => match w with WCounted id cnt _ => [(cnt, id)] | WBytes id (LCount cnt) => [(cnt, id)] | _ => [] end) d.
+  flat_map (fun w => match w with WCounted id cnt _ => [(cnt, id)] | WBytes id (LCount cnt) _ => [(cnt, id)]
+                            | WTagged id s => [(tg_len s, id)] | _ => [] end) d.
 Definition Codec_pair_eqb (p q : N * N) : bool := N.eqb (fst p) (fst q) && N.eqb (snd p) (snd q).
 
 (* [seen]: count announcements of the wires already passed *)
@@ -360,9 +607,26 @@ Fixpoint Codec_wf_from (d : Codec_desc) (seen : list (N * N)) : bool :=
        | WItem i => Codec_wf_item true i
        | WCounted id cnt body =>
            forallb (Codec_wf_item false) body && (1 <=? Codec_items_size body)%nat && existsb (Codec_pair_eqb (cnt, id)) seen
-       | WBytes id (LCount cnt) => existsb (Codec_pair_eqb (cnt, id)) seen
-       | WBytes _ LGreedy => match d' with [] => true | _ => false end
-       | WBytes _ (LFixed _) => true
+       | WBytes id l m =>
+           (match l with
+            | LCount cnt => existsb (Codec_pair_eqb (cnt, id)) seen
+            | LGreedy => match d' with [] => true | _ => false end
+            | LFixed _ => true
+            end) &&
+           (match m with
+            | BRaw => true
+            | BStr => match l with LCount _ => true | _ => false end
+            | BRewrite _ _ src dst => Nat.eqb (length src) (length dst) && negb (Codec_list_eqb src dst) && Codec_bytes_ok dst
+            end)
+       | WSwitch _ _ cases => forallb (fun c => forallb (Codec_wf_item false) (snd c)) cases
+       | WTagged id s =>
+           existsb (Codec_pair_eqb (tg_len s, id)) seen &&
+           forallb (fun c => forallb (Codec_wf_item false) (snd c)) (tg_cases s) &&
+           match tg_sub s with
+           | None => true
+           | Some (_, hitems, _, subcases) =>
+               forallb (Codec_wf_item false) hitems && forallb (fun c => forallb (Codec_wf_item false) (snd c)) subcases
+           end
        end)
       && Codec_wf_from d' (match w with WItem (IField id _ (ACount t)) => (id, t) :: seen | _ => seen end)
   end.
@@ -374,5 +638,19 @@ Definition Codec_wf (d : Codec_desc) : bool :=
   && forallb (fun p => existsb (Codec_pair_eqb p) (Codec_uses_of d)) (Codec_counts_of d).
 
 Definition Codec_item_uses_ts (i : Codec_item) : bool := match i with IField _ _ ATimestamp => true | _ => false end.
-Definition Codec_uses_ts (d : Codec_desc) : bool :=
-  existsb (fun w => match w with WItem i => Codec_item_uses_ts i | WCounted _ _ body => existsb Codec_item_uses_ts body | _ => false end) d.
+Definition Codec_cases_use_ts (cs : list (Z * list Codec_item)) : bool := existsb (fun c => existsb Codec_item_uses_ts (snd c)) cs.
+Definition Codec_wire_uses_ts (w : Codec_wire) : bool :=
+  match w with
+  | WItem i => Codec_item_uses_ts i
+  | WCounted _ _ body => existsb Codec_item_uses_ts body
+  | WBytes _ _ _ => false
+  | WSwitch _ _ cases => Codec_cases_use_ts cases
+  | WTagged _ s => Codec_cases_use_ts (tg_cases s) ||
+                   match tg_sub s with None => false | Some (_, h, _, sc) => existsb Codec_item_uses_ts h || Codec_cases_use_ts sc end
+  end.
+Definition Codec_uses_ts (d : Codec_desc) : bool := existsb Codec_wire_uses_ts d.
+
+(* layouts whose parse has no non-canonical inputs: strict and lenient decoding coincide *)
+Definition Codec_wire_rigid (w : Codec_wire) : bool :=
+  match w with WBytes _ _ BStr => false | WTagged _ _ => false | _ => true end.
+Definition Codec_rigid (d : Codec_desc) : bool := forallb Codec_wire_rigid d.
